@@ -281,6 +281,7 @@ func (r *Router) deployTargetsIntoService(service *Service, targetSlot TargetSlo
 
 	err = r.installService(service)
 	if err != nil {
+		lb.Dispose()
 		return err
 	}
 	verifPoint("deploy.installed", service.name, int(targetSlot))
